@@ -169,8 +169,11 @@ def readVarint (s : St) : Out Nat :=
 def readFrameHeader (s : St) : Out Nat :=
   if s.lim ≥ 0 then .err (.plain cFrameError) s else
   (readVarint s).bind fun ft s1 =>
-  (readVarint s1).bind fun size s2 =>
-  .ok ft { s2 with lim := size }
+  match readVarint s1 with
+  | .ok size s2 => .ok ft { s2 with lim := size }
+  | .err e s2 => if e = .eof then .err (.plain cFrameError) s2 else .err e s2   -- truncated header
+  | .panic => .panic
+  | .hang => .hang
 
 /-- `endFrame`. -/
 def endFrame (s : St) : Out Unit :=
